@@ -17,7 +17,7 @@ import sys
 from vf import core
 
 ford = core.setup_env()
-from vf import fgen, genmodels, layout, observe  # noqa: E402
+from vf import fgen, genmodels, layout, lexer, observe  # noqa: E402
 
 PID = "C14"
 
@@ -34,6 +34,19 @@ def observe_case(item):
         table, err = None, f"{type(e).__name__}: {e}\n" + traceback.format_exc()[-1200:]
     diags = [w for w in cap.warnings if "Error parsing" in w] + [l for l in cap.stdout.splitlines() if l.startswith("ERROR in file")]
     return {"table": table, "error": err, "diags": diags[:8]}
+
+
+def observe_history(item):
+    """One process, several FORD runs one after the other on the *same paths*: the directory is emptied and re-written
+    between the runs (a later run must not see anything an earlier one read)."""
+    out = []
+    for step in item["steps"]:
+        shutil.rmtree(item["root"], ignore_errors=True)
+        os.makedirs(item["root"])
+        for name, text in step["files"].items():
+            open(os.path.join(item["root"], name), "w").write(text)
+        out.append(observe_case({"root": item["root"], "settings": step["settings"]}))
+    return out
 
 
 def input_features(fixed_text):
@@ -56,91 +69,148 @@ def input_features(fixed_text):
                     break
         if len(l) > 5 and l[0] not in "Cc*!#" and "!" not in l[1:5] and l[5] == "!":
             feats.add("bang_continuation_char")
+        if l and l[0] not in "Cc*!" and ("'" in l and '"' in l) and lexer.comment_start(l[:72]) >= 0:
+            feats.add("both_quote_characters_before_trailing_comment")
     return feats
 
 
+FIXED_EXT = ["f", "f", "for", "F", "FOR"]
+FREE_EXT = ["f90", "f90", "f95", "f03", "f08", "F90"]
+
+
+QLITS = ['"don\'t"', "'say \"hi'", '"it\'s ! no comment"', "'a \" ; b'", '"x\'\'y\'"', "'plain'", '"pl ain"', "'it''s'", '"q""q\'"']
+
+
+def quote_module(seed):
+    """Statement list of a module whose declarations and output statements carry literals with the other quote character, `!`
+    and `;` inside (what a trailing-comment / sequence-field scanner has to step over)"""
+    rng = random.Random(seed * 31 + 7)
+    S = fgen.Stmt
+    st = [S(f"module qm{seed % 1000}", [f"qdm{seed % 1000} module doc"], kind="open"), S("implicit none")]
+    for i in range(rng.randint(2, 5)):
+        lits = rng.sample(QLITS, rng.randint(1, 3))
+        st.append(S(f"character(len=40) :: qv{i} = " + " // ".join(lits), [f"qd{i}a doc of qv{i}"] if rng.random() < 0.7 else []))
+    st += [S("contains"), S(f"subroutine qs{seed % 1000}()", [f"qds doc"], kind="open")]
+    for i in range(rng.randint(1, 3)):
+        st.append(S("print *, " + ", ".join(rng.sample(QLITS, rng.randint(1, 3))), kind="exec"))
+    st += [S(f"end subroutine qs{seed % 1000}", kind="end"), S(f"end module qm{seed % 1000}", kind="end")]
+    return st
+
+
+def render_pair(seed, files, length_limit, ext_fixed, ext_free, feats):
+    """(free files, fixed files, texts) of one project for one setting of fixed_length_limit"""
+    rng = random.Random(seed * 3 + (1 if length_limit else 2))
+    style = fgen.Style(seed * 7 + 1)
+    lay_fixed = layout.Layout(seed + (0 if length_limit else 977), plain=False, docstyle=rng.choice(["after", "inline", "pre", "mixed"]), cont_p=0.5, comment_p=0.25)
+    free_files, fixed_files, texts = {}, {}, {}
+    class _Q:  # pseudo file for the quote module
+        name = f"zq{seed % 1000}"
+
+    for f in list(files) + [_Q]:
+        stmts = fgen.render_file(f, fgen.Style(style.seed)) if f is not _Q else quote_module(seed)
+        layout.assign_labels(stmts, random.Random(seed + 5))
+        # optionally move a run of declarations into an INCLUDEd file (same form as the including file; an INCLUDE line is never continued)
+        inc = None
+        runs = [i for i in range(len(stmts) - 1) if stmts[i].kind == "code" and not stmts[i].label and stmts[i + 1].kind == "code" and not stmts[i + 1].label]
+        if runs and random.Random(seed + 9).random() < 0.4:
+            i = random.Random(seed + 10).choice(runs)
+            j = i + 2
+            while j < len(stmts) and j - i < 4 and stmts[j].kind == "code" and not stmts[j].label and rng.random() < 0.5:
+                j += 1
+            inc = (f"inc_{f.name}.inc", stmts[i:j], f"vfincmark{seed % 1000}=0")
+            stmts = stmts[:i] + [fgen.Stmt(inc[2])] + stmts[j:]
+            feats.add("include_file")
+        free_text = layout.Layout(seed, plain=True).free(stmts)
+        fixed_text = lay_fixed.fixed(stmts, length_limit=length_limit, junk=length_limit)
+        if inc:
+            free_text = free_text.replace(inc[2], f"include '{inc[0]}'")
+            fixed_text = fixed_text.replace(inc[2], f"include '{inc[0]}'")
+            free_files[inc[0]] = layout.Layout(seed + 1, plain=True).free(inc[1])
+            inc_fixed = lay_fixed.fixed(inc[1], length_limit=length_limit, junk=length_limit)
+            fixed_files[inc[0]] = inc_fixed
+            feats |= input_features(inc_fixed)
+        free_files[f"{f.name}.{ext_free}"] = free_text
+        fixed_files[f"{f.name}.{ext_fixed}"] = fixed_text
+        texts[f.name] = {"free": free_text, "fixed": fixed_text}
+        if inc:
+            texts[f.name]["included_fixed"] = inc_fixed
+        feats |= input_features(fixed_text)
+    return free_files, fixed_files, texts, lay_fixed.features
+
+
 def case(arg):
-    seed, length_limit = arg
+    """One project; fixed_length_limit on and off (in the order given) run one after the other in one process on the same
+    paths, the free-form twin in another."""
+    seed, first_limit = arg
     rng = random.Random(seed)
     files = genmodels.gen_project(seed, docs=True, nfiles=rng.randint(1, 2), features={"submodules": True})
-    style = fgen.Style(seed * 7 + 1)
+    ext_fixed, ext_free = rng.choice(FIXED_EXT), rng.choice(FREE_EXT)
+    # the default pre-processor (pcpp on PATH) for the extensions FORD pre-processes by default (.F .FOR .F90)
+    preprocess = ext_fixed in ("F", "FOR") and rng.random() < 0.5
     base = core.mktemp("vf_c14_")
     viol = []
+    feats = set()
+    lf = set()
+    n_ent = 0
+    texts_all = {}
     try:
         free_root, fixed_root = os.path.join(base, "free"), os.path.join(base, "fixed")
-        os.makedirs(free_root)
-        os.makedirs(fixed_root)
-        lay_fixed = layout.Layout(seed, plain=False, docstyle=rng.choice(["after", "inline", "pre", "mixed"]), cont_p=0.5, comment_p=0.25)
-        texts = {}
-        feats = set()
-        for f in files:
-            stmts = fgen.render_file(f, fgen.Style(style.seed))
-            layout.assign_labels(stmts, random.Random(seed + 5))
-            # optionally move a run of declarations into an INCLUDEd file (same form as the including file; an INCLUDE line is never continued)
-            inc = None
-            runs = [i for i in range(len(stmts) - 1) if stmts[i].kind == "code" and not stmts[i].label and stmts[i + 1].kind == "code" and not stmts[i + 1].label]
-            if runs and rng.random() < 0.35:
-                i = rng.choice(runs)
-                j = i + 2
-                while j < len(stmts) and j - i < 4 and stmts[j].kind == "code" and not stmts[j].label and rng.random() < 0.5:
-                    j += 1
-                inc = (f"inc_{f.name}.inc", stmts[i:j], f"vfincmark{seed % 1000}=0")
-                stmts = stmts[:i] + [fgen.Stmt(inc[2])] + stmts[j:]
-                feats.add("include_file")
-            free_text = layout.Layout(seed, plain=True).free(stmts)
-            fixed_text = lay_fixed.fixed(stmts, length_limit=length_limit, junk=length_limit)
-            if inc:
-                free_text = free_text.replace(inc[2], f"include '{inc[0]}'")
-                fixed_text = fixed_text.replace(inc[2], f"include '{inc[0]}'")
-                open(os.path.join(free_root, inc[0]), "w").write(layout.Layout(seed + 1, plain=True).free(inc[1]))
-                inc_fixed = lay_fixed.fixed(inc[1], length_limit=length_limit, junk=length_limit)
-                open(os.path.join(fixed_root, inc[0]), "w").write(inc_fixed)
-                feats |= input_features(inc_fixed)
-            open(os.path.join(free_root, f.name + ".f90"), "w").write(free_text)
-            open(os.path.join(fixed_root, f.name + ".f"), "w").write(fixed_text)
-            texts[f.name] = {"free": free_text, "fixed": fixed_text}
-            if inc:
-                texts[f.name]["included_fixed"] = inc_fixed
-            feats |= input_features(fixed_text)
-        settings = {"fixed_length_limit": length_limit}
-        rfree = core.run_alone(observe_case, {"root": free_root, "settings": settings}, timeout=120)
-        rfix = core.run_alone(observe_case, {"root": fixed_root, "settings": settings}, timeout=120)
+        steps_free, steps_fixed, limits = [], [], [first_limit, not first_limit]
+        for ll in limits:
+            fr, fx, texts, lfeat = render_pair(seed, files, ll, ext_fixed, ext_free, feats)
+            lf |= lfeat
+            texts_all[ll] = texts
+            settings = {"fixed_length_limit": ll}
+            if preprocess:
+                settings["preprocess"] = True
+            steps_free.append({"files": fr, "settings": settings})
+            steps_fixed.append({"files": fx, "settings": settings})
+        rfree = core.run_alone(observe_history, {"root": free_root, "steps": steps_free}, timeout=240)
+        rfix = core.run_alone(observe_history, {"root": fixed_root, "steps": steps_fixed}, timeout=240)
     finally:
         shutil.rmtree(base, ignore_errors=True)
-    kfbase = {"length_limit": length_limit, "input_features": sorted(feats & {"seqfield_starts_with_bang", "long_blank_line_before_continuation"})}
     for tag, (st, r) in (("free", rfree), ("fixed", rfix)):
         if st != "ok":
-            viol.append({"kf": {"kind": "harness_" + st, **kfbase}, "w": {"which": tag, "detail": str(r)[-400:]}})
-        elif r["error"]:
-            viol.append({"kf": {"kind": "ford_failed_" + tag, "error": r["error"].split(":")[0], **kfbase}, "w": {"error": r["error"], "files": texts, "seed": seed}})
-        elif r["diags"]:
-            viol.append({"kf": {"kind": "diagnostic_" + tag, **kfbase}, "w": {"diags": r["diags"], "files": texts, "seed": seed}})
-    n_ent = 0
-    if rfree[0] == "ok" and rfix[0] == "ok" and rfree[1]["table"] is not None and rfix[1]["table"] is not None:
-        n_ent = len(rfree[1]["table"])
-        diffs = observe.diff_tables(rfree[1]["table"], rfix[1]["table"])
-        seen = set()
-        for path, field, a, b in diffs:
-            leaf = path.rsplit("/", 1)[-1].split(":")[0]
-            kf = {"kind": "forms_disagree", "entity": leaf, "field": field, **kfbase}
-            k = json.dumps(kf, sort_keys=True)
-            if k in seen:
+            viol.append({"kf": {"kind": "harness_" + st}, "w": {"which": tag, "detail": str(r)[-400:], "seed": seed}})
+    if not viol:
+        for step, ll in enumerate(limits):
+            texts = texts_all[ll]
+            kfbase = {"length_limit": ll, "step_in_process": step, "extension": ext_fixed, "preprocess": preprocess,
+                      "input_features": sorted(feats & {"seqfield_starts_with_bang", "long_blank_line_before_continuation"})}
+            a, b = rfree[1][step], rfix[1][step]
+            bad = False
+            for tag, r in (("free", a), ("fixed", b)):
+                if r["error"]:
+                    viol.append({"kf": {"kind": "ford_failed_" + tag, "error": r["error"].split(":")[0], **kfbase}, "w": {"error": r["error"], "files": texts, "seed": seed, "first_limit": first_limit}})
+                    bad = True
+                elif r["diags"]:
+                    viol.append({"kf": {"kind": "diagnostic_" + tag, **kfbase}, "w": {"diags": r["diags"], "files": texts, "seed": seed, "first_limit": first_limit}})
+            if bad or a["table"] is None or b["table"] is None:
                 continue
-            seen.add(k)
-            viol.append({"kf": kf, "w": {"path": path, "field": field, "free": a, "fixed": b, "files": texts, "seed": seed, "length_limit": length_limit}})
-    lf = lay_fixed.features
+            n_ent += len(a["table"])
+            seen = set()
+            for path, field, x, y in observe.diff_tables(a["table"], b["table"]):
+                leaf = path.rsplit("/", 1)[-1].split(":")[0]
+                kf = {"kind": "forms_disagree", "entity": leaf, "field": field, **kfbase}
+                k = json.dumps(kf, sort_keys=True)
+                if k in seen:
+                    continue
+                seen.add(k)
+                viol.append({"kf": kf, "w": {"path": path, "field": field, "free": x, "fixed": y, "files": texts, "seed": seed, "length_limit": ll, "first_limit": first_limit}})
     nontrivial = "fixed_cont" in lf and any(x.startswith("fixed_comment_") or x == "fixed_cont_interleaved" for x in lf)
-    return {"viol": viol, "features": sorted(lf | feats), "nontrivial": nontrivial, "entities": n_ent, "hash": core.h(texts),
-            "sample": {"seed": seed, "fixed_form_file": next(iter(texts.values()))["fixed"][:1800]}}
+    lf = set(lf) | {"extension_." + ext_fixed} | ({"preprocessed"} if preprocess else set())
+    return {"viol": viol, "features": sorted(lf | feats), "nontrivial": nontrivial, "entities": n_ent, "hash": core.h(texts_all[True]) + core.h(texts_all[False]),
+            "sample": {"seed": seed, "fixed_form_file": next(iter(texts_all[True].values()))["fixed"][:1800]}}
 
 
 def main():
     run = core.Run(
         PID,
-        rule="case = generated program (vf.genmodels) rendered from one statement list as plain free form (.f90) and as fixed form "
-        "(.f) with random continuation breaks at token boundaries, any printable non-blank non-zero continuation character, labels in "
+        rule="case = generated program (vf.genmodels) rendered from one statement list as plain free form (.f90 .f95 .f03 .f08 .F90) and as fixed form "
+        "(.f .for .F .FOR; the upper-case ones in half of the cases through the default pre-processor) with random continuation breaks at token boundaries, any printable non-blank non-zero continuation character, labels in "
         "columns 1-5 on executable statements, C/c/*/! comment lines, blank and short lines also between continuation lines, doc "
-        "comments after/inline/before, sequence-field text in 73+ (limit on) or long lines (limit off). Non-trivial: >=1 continuation "
+        "comments after/inline/before, sequence-field text in 73+ (limit on) or long lines (limit off); both settings of fixed_length_limit run one after the "
+        "other in ONE process on the same paths (directory re-written in between; either order). Non-trivial: >=1 continuation "
         "and >=1 comment/blank line; distinct by hash of both renderings.",
         assumptions=[
             "line breaks only at blanks outside literals (no breaks inside tokens or literals); no tab form",
@@ -151,12 +221,12 @@ def main():
     rp = core.replay_arg()
     if rp:
         w = json.load(open(rp))["witness"]
-        r = case((w["seed"], w.get("length_limit", True)))
+        r = case((w["seed"], w.get("first_limit", True)))
         print("replay:", "VIOLATION" if r["viol"] else "held")
         for v in r["viol"][:10]:
             print(json.dumps({k: x for k, x in v["w"].items() if k != "files"}, default=str)[:500])
         sys.exit(1 if r["viol"] else 0)
-    n = 2500 if run.tier == "thorough" else 300
+    n = 2000 if run.tier == "thorough" else 300
     args = [(run.seed * 100003 + i, i % 2 == 0) for i in range(n)]
     results = core.fork_map(case, args, per_case_fork=False, case_timeout=300, total_timeout=3400)
     for a, (st, r) in zip(args, results):
@@ -165,13 +235,16 @@ def main():
             continue
         run.case(key=r["hash"], nontrivial=r["nontrivial"], sample=r["sample"] if r["nontrivial"] else None)
         run.count("entities_compared", r["entities"])
-        run.count("cases_length_limit_" + ("on" if a[1] else "off"))
+        run.count("runs_compared", 2)
+        run.count("cases_length_limit_" + ("on" if a[1] else "off") + "_first")
         for f in r["features"]:
             run.seen("layout_features_observed", f)
+            if f in ("both_quote_characters_before_trailing_comment", "preprocessed", "include_file", "sequence_field_after_comment", "fixed_trailing_comment_on_continued_line"):
+                run.count("cases_with_" + f)
         for v in r["viol"]:
             run.violation(v["kf"], v["w"])
     run.max_samples = 2
-    run.finish(floors={"evaluations": 200, "distinct_nontrivial": 100, "layout_features_observed": 10, "entities_compared": 5000})
+    run.finish(floors={"evaluations": 150, "distinct_nontrivial": 100, "cases_with_both_quote_characters_before_trailing_comment": 30, "cases_with_preprocessed": 10, "cases_with_include_file": 30, "layout_features_observed": 10, "entities_compared": 5000})
 
 
 if __name__ == "__main__":
